@@ -327,15 +327,19 @@ func genC13(c *Ctx) {
 	smpRestarts(c)
 	// authenticated but malicious key-exchange payloads: a peer that takes part in the exchange puts something
 	// unparsable (or somebody else's key) where its public key and signature belong, encrypted and MACed correctly
-	for _, typ := range []byte{0x11, 0x12} {
+	for _, typ := range []byte{0x02, 0x11, 0x12} {
 		muts := []Mut{MBadX(0), MBadX(1), MBadX(2), MBadX(3), MBadX(4), MImpersonate(3)}
+		if typ == 0x02 {
+			// well-formed D-H Commit messages whose commitment field has another length than the hash
+			muts = []Mut{MCommitHashLen(0), MCommitHashLen(1), MCommitHashLen(10), MCommitHashLen(31), MCommitHashLen(33), MCommitHashLen(40)}
+		}
 		for _, m := range muts {
 			for _, late := range []bool{false, true} {
 				pol := []int{polV3, polV2}[(int(typ)+len(m.Coq))%2]
 				run := akeSweepRun(pol, c.R.U64(), typ, m, late, true, late)
 				c.Count("authenticated-malicious-ake-payload")
 				if run.panicked || run.s.panicked {
-					c.Violate("panic", fmt.Sprintf("Receive(type=%#x,%s)", typ, m.Coq), "panic while processing an authenticated key-exchange message with a malformed payload", run.s.trace)
+					c.Violate("panic", fmt.Sprintf("Receive(type=%#x,%s,%s)", typ, m.Coq, m.Kind), "panic while processing a well-formed key-exchange message with a malicious payload", run.s.trace)
 				}
 				for who := 1; who <= 2; who++ {
 					if !run.s.ps[who].c.IsEncrypted() && run.rejected {
